@@ -49,6 +49,7 @@ pub mod life {
         let mut closed = false;
         let mut bits = 0u32;
         let mut step = 0;
+        if (p & P18) != 0 { arm_alloc(); }
         while step < n && !s.exhausted() && !closed {
             step += 1;
             let op = s.below(4);
@@ -105,6 +106,9 @@ pub mod life {
                     }
                     closed = true;
                 }
+            }
+            if (p & P18) != 0 {
+                assert!(alloc_events() == 0, "C18 shared channel: cloning/dropping a handle or polling allocated or freed heap memory while the channel state is still referenced");
             }
             if (p & P17) != 0 {
                 assert!(obs.is_terminated() == closed, "C17 lifecycle: is_terminated() of a shared receive future differs from 'completed'");
@@ -196,6 +200,65 @@ pub mod life {
                     let _bits = hist::<$fl, _>(&mut KaniSrc, $n, $p);
                 }
             };
+        }
+        #[kani::proof]
+        #[kani::unwind(4)]
+        fn repoll_panics_shared_send() {
+            let (tx, rx) = Mpmc::<NL>::mk();
+            let f = tx.send(Tag(1));
+            core::mem::forget(tx);
+            core::mem::forget(rx);
+            repoll_after_ready(f);
+        }
+        #[kani::proof]
+        #[kani::unwind(4)]
+        fn repoll_panics_shared_receive() {
+            let (tx, rx) = Mpmc::<NL>::mk();
+            core::mem::forget(tx.try_send(Tag(1)));
+            let f = rx.receive();
+            core::mem::forget(tx);
+            core::mem::forget(rx);
+            repoll_after_ready(f);
+        }
+        #[kani::proof]
+        #[kani::unwind(4)]
+        fn repoll_panics_shared_state() {
+            let (tx, rx) = State::<NL>::mk();
+            core::mem::forget(tx.send(Tag(1)));
+            let f = rx.receive(crate::channel::StateId::new());
+            core::mem::forget(tx);
+            core::mem::forget(rx);
+            repoll_after_ready(f);
+        }
+        #[kani::proof]
+        #[kani::unwind(5)]
+        #[kani::stub(alloc::alloc::alloc, crate::verif::common::stub_alloc)]
+        #[kani::stub(alloc::alloc::dealloc, crate::verif::common::stub_dealloc)]
+        #[kani::stub(alloc::alloc::realloc, crate::verif::common::stub_realloc)]
+        fn life_c18_oneshot_bc_n3() { let _ = hist::<OneshotBc<NL>, _>(&mut KaniSrc, 3, P18); }
+        #[kani::proof]
+        #[kani::unwind(5)]
+        #[kani::stub(alloc::alloc::alloc, crate::verif::common::stub_alloc)]
+        #[kani::stub(alloc::alloc::dealloc, crate::verif::common::stub_dealloc)]
+        #[kani::stub(alloc::alloc::realloc, crate::verif::common::stub_realloc)]
+        fn life_c18_state_n3() { let _ = hist::<State<NL>, _>(&mut KaniSrc, 3, P18); }
+        /// The allocator stubs are live: an armed Box allocation and its release are counted.
+        #[kani::proof]
+        #[kani::unwind(3)]
+        #[kani::stub(alloc::alloc::alloc, crate::verif::common::stub_alloc)]
+        #[kani::stub(alloc::alloc::dealloc, crate::verif::common::stub_dealloc)]
+        #[kani::stub(alloc::alloc::realloc, crate::verif::common::stub_realloc)]
+        fn c18_selftest() {
+            arm_alloc();
+            let b = alloc::boxed::Box::new(5u32);
+            assert!(alloc_events() == 1, "C18 selftest: an armed allocation was not counted (stubs not applied)");
+            // (Box's drop glue reaches the allocator through a Kani-internal model, not through alloc::alloc::dealloc:
+            // frees are not observable in the model; the native replayer's counting global allocator sees them.)
+            core::mem::forget(b);
+            let mut v = alloc::vec::Vec::<u32>::new();
+            v.push(1);
+            assert!(alloc_events() >= 2, "C18 selftest: an armed Vec allocation was not counted (stubs not applied)");
+            core::mem::forget(v);
         }
         life_proof!(life_mpmc_n3, Mpmc<NL>, 3, P11, 5);
         life_proof!(life_mpmc_n4, Mpmc<NL>, 4, P11, 6);
